@@ -30,7 +30,7 @@ def parse_hist(out):
     for line in out.splitlines():
         f = line.split("\t")
         if f[0] == "H":
-            hs[int(f[1])] = {"hid": int(f[1]), "pipeline": f[2], "opt": int(f[3]), "history": f[4], "origin": f[6],
+            hs[int(f[1])] = {"hid": int(f[1]), "pipeline": f[2], "opt": int(f[3]), "history": f[4], "origin": f[6], "same_name": len(f) > 7 and f[7] == "1",
                              "sources": [], "feats": [], "reqs": []}
         elif f[0] == "S":
             h = hs[int(f[1])]
@@ -54,7 +54,7 @@ def corpus_text(h, upto=None):
     hist = h["history"].split()
     if upto is not None:
         hist = hist[:upto + 1]
-    t = f"#pipeline {h['pipeline']} {h['opt']}\n#history {' '.join(hist)}\n"
+    t = f"#pipeline {h['pipeline']} {h['opt']}\n#history {' '.join(hist)}\n" + ("#names same\n" if h.get("same_name") else "")
     for s in h["sources"]:
         t += "#source\n" + unesc(s)
         if not t.endswith("\n"):
@@ -70,7 +70,7 @@ def classify(r):
         return []
     if not same("nocache", "fresh"):
         # same stages, cache cleared before every request, still differs from a fresh pipeline
-        return ["stage-state:%s:%s-vs-%s" % (r["kind"], r["nocache"].split(":")[0], r["fresh"].split(":")[0])]
+        return ["uncached-twin-differs-from-fresh:%s:%s-vs-%s" % (r["kind"], r["nocache"].split(":")[0], r["fresh"].split(":")[0])]
     # the cache is the cause
     if not same("nocomp", "fresh"):
         return ["cache:other-stage:%s" % r["kind"]]
